@@ -110,6 +110,40 @@ def run(ctx):
             res["oracle_failures"].append(dict(clause="fit_returns_fitted_model_or_DataSufficiencyError", family=name,
                                                detail=f"{exc_name(e)}: {str(e)[:100]}", input="synthetic qualified baseline (harness/props/c04.py synth_*)"))
         sigs.add(("real_fit", name))
+    # ---------------- (A2) a baseline that IS disqualified, fitted with the override: the model inherits the disqualification, refuses
+    # to predict without the override, and still does after storage (real fit path, nothing stubbed)
+    from opendsm.eemeter.common.exceptions import DisqualifiedModelError as _DQE
+    for name, mk, mkdata, rd, from_json in [
+            ("daily", lambda: DailyModel(), lambda: DailyBaselineData(dd, is_electricity_data=True), daily_r, DailyModel.from_json),
+            ("billing", lambda: BillingModel(), lambda: BillingBaselineData.from_series(meter, htemp, is_electricity_data=True), bill_r, BillingModel.from_json),
+            ("hourly", lambda: HourlyModel(), lambda: HourlyBaselineData(synth_hourly(days=365), is_electricity_data=True), hour_r, HourlyModel.from_json)]:
+        res["evaluations"] += 1
+        try:
+            data = mkdata()
+            data.disqualification.append(dq_warning())
+            m = mk().fit(data, ignore_disqualification=True)
+        except Exception as e:  # noqa
+            res["oracle_failures"].append(dict(clause="fit_with_override_proceeds", family=name, detail=f"{exc_name(e)}: {str(e)[:100]}"))
+            continue
+        for how, model in (("fresh", m), ("after to_json/from_json", None)):
+            try:
+                model = model if model is not None else from_json(m.to_json())
+            except Exception as e:  # noqa
+                res["oracle_failures"].append(dict(clause="model_restores_from_json", family=name, how="disqualified baseline", detail=f"{exc_name(e)}: {str(e)[:80]}"))
+                continue
+            carried = [w.qualified_name for w in model.disqualification]
+            if not any("test_disqualification" in q for q in carried):
+                res["oracle_failures"].append(dict(clause="fitted_model_inherits_baseline_disqualification", family=name, how=how, model_disqualification=carried))
+            try:
+                model.predict(rd)
+                res["oracle_failures"].append(dict(clause="predict_gate_closed_for_model_fitted_on_disqualified_baseline", family=name, how=how,
+                                                   behaviour="returned a prediction", model_disqualification=carried))
+            except _DQE:
+                pass
+            except Exception as e:  # noqa
+                res["oracle_failures"].append(dict(clause="predict_gate_closed_for_model_fitted_on_disqualified_baseline", family=name, how=how,
+                                                   behaviour=f"{exc_name(e)}: {str(e)[:80]}"))
+        sigs.add(("fit_on_disqualified_baseline", name))
     # CalTRACK hourly
     try:
         from opendsm.eemeter.models.hourly_caltrack.wrapper import HourlyModel as CTModel
